@@ -302,6 +302,7 @@ func runC11(p *P, r *R) {
 	c11NoBlockingUnderLock(p, r)
 	c11LockOrder(p, r)
 	c11DispatcherWaits(p, r)
+	c11LocksReleased(p, r)
 	// a read blocked for more data is woken by every arrival (shared with C20 R20.1)
 	arrivalWakesReaders(p, r, "R11.10")
 	// the writer parked after EAGAIN is released by every EPOLLOUT edge (shared with C18 R18.7)
@@ -1214,4 +1215,63 @@ func c11DispatcherWaits(p *P, r *R) {
 		r.ob("R11.13", "(*streamPool).close: the pool's session is closed before its pooled streams (side condition of the exception)", p.pos(pc.Pos()), okOrder, true, "")
 	}
 	_ = n
+}
+
+// c11LocksReleased (R11.14): every function that acquires one of the package's mutexes releases it on every exit
+// (explicitly on each path, or by a deferred release) and never acquires it again while it may still hold it.
+func c11LocksReleased(p *P, r *R) {
+	words := map[string]bool{}
+	for _, f := range p.fnList {
+		allInstrs(f, func(in ssa.Instruction) {
+			cc := callCommon(in)
+			if cc == nil || len(cc.Args) == 0 {
+				return
+			}
+			switch p.calleeName(cc) {
+			case "(*sync.Mutex).Lock", "(*sync.RWMutex).Lock", "(*sync.RWMutex).RLock":
+				if w := wordOf(cc.Args[0]); w != "" {
+					words[w] = true
+				}
+			}
+		})
+	}
+	var ws []string
+	for w := range words {
+		ws = append(ws, w)
+	}
+	sort.Strings(ws)
+	n := 0
+	for _, w := range ws {
+		rg := p.mutexRegion(w)
+		for _, f := range p.fnList {
+			acqs := findInstrs(f, M{ID: "acq", F: rg.Acquire})
+			if len(acqs) == 0 {
+				continue
+			}
+			if len(f.Blocks) == 1 && len(acqs) == 1 && len(findInstrs(f, M{ID: "rel", F: rg.Release})) == 0 {
+				continue // a lock wrapper returns with the mutex held by design; its callers are judged (the call is an acquire)
+			}
+			n++
+			mh := p.mayHeldBefore(f, rg)
+			def := p.deferredRelease(f, rg)
+			okExit, okDouble := true, true
+			where := ""
+			for _, ret := range returnsOf(f) {
+				if f.Recover != nil && ret.Block() == f.Recover {
+					continue
+				}
+				if mh[ret] && !def {
+					okExit, where = false, p.ipos(ret)
+				}
+			}
+			for _, li := range acqs {
+				if _, isD := li.(*ssa.Defer); !isD && mh[li] {
+					okDouble, where = false, p.ipos(li)
+				}
+			}
+			r.ob("R11.14", p.fname(f)+": "+w+" is released on every exit", p.pos(f.Pos()), okExit, true, "an exit that keeps the mutex blocks every later user for ever: %s", where)
+			r.ob("R11.14", p.fname(f)+": "+w+" is not acquired while it may still be held", p.pos(f.Pos()), okDouble, true, "%s", where)
+		}
+	}
+	r.count("R11.14", "function/mutex pairs", n, 20)
 }
